@@ -6,7 +6,7 @@ ENV = dict(os.environ, GOFLAGS="-mod=mod", GOPROXY="off"); ENV.pop("GOWORK", Non
 def run(cmd, cwd="/"):
     p = subprocess.run(cmd, cwd=cwd, env=ENV, stdout=subprocess.PIPE, stderr=subprocess.STDOUT, text=True)
     return p.returncode, p.stdout
-names = sys.argv[1:] or sorted(os.path.basename(d) for d in glob.glob("/verif/seeded/*") if os.path.isdir(d))
+names = sys.argv[1:] or sorted(os.path.basename(d) for d in glob.glob("/verif/seeded/C*") if os.path.isdir(d))
 rc, o = run(["git", "-C", "/repo", "status", "--porcelain"])
 assert o.strip() == "", "/repo not clean: " + o
 tot = own = anyc = 0
